@@ -98,7 +98,7 @@ def variant_of(spec, sy, rnd):
     ts = [d for d in v if d['t'] == 'transform']
     # the same dataset listing its ids in another order (a column cache must not depend on it)
     srcs = [d for d in v if d['t'] == 'source' and len(d['ids']) >= 2]
-    if srcs and any(d['t'] == 'columns' for d in v) and rnd.random() < 0.5:
+    if srcs and any(d['t'] == 'columns' for d in v) and rnd.random() < 0.6:
         d = rnd.choice(srcs)
         d['ids'] = list(reversed(d['ids'])) if rnd.random() < 0.5 else rnd.sample(d['ids'], len(d['ids']))
         return v
@@ -280,7 +280,8 @@ def main():
     for i in range(a.n):
         spec, ids, fields, n_roots, sy = gen_spec(rnd, not a.no_disk, a.columns)
         variants = [spec]
-        if rnd.random() < 0.4:
+        has_cols = any(d['t'] == 'columns' for d in spec)
+        if rnd.random() < (0.7 if has_cols else 0.4):
             variants.append(variant_of(spec, sy, rnd))
         ops = gen_ops(rnd, ids, fields, len(variants), spec, rnd.randint(3, a.ops), allow_typed=not a.columns)
         cases.append({'variants': variants, 'ids': ids, 'fields': fields, 'n_roots': n_roots, 'ops': ops})
